@@ -102,10 +102,12 @@ type Exec struct {
 	Points   []PointInfo
 	Diverged string
 
+	watch    *time.Timer
 	Trace    []string
 	Steps    int
 	maxSteps int
 
+	Horizon  bool     // the step horizon cut this execution (unfair schedule)
 	Deadlock bool
 	Blocked  []string // threads left blocked at quiescence
 	Panics   []string
@@ -436,6 +438,7 @@ var StallTimeout = 60 * time.Second
 
 func (x *Exec) waitParked(outstanding int) {
 	for outstanding > 0 {
+		// fast path without touching the timer
 		select {
 		case ev := <-x.events:
 			if ev.spawn {
@@ -443,7 +446,23 @@ func (x *Exec) waitParked(outstanding int) {
 			} else {
 				outstanding--
 			}
-		case <-time.After(StallTimeout):
+			continue
+		default:
+		}
+		if x.watch == nil {
+			x.watch = time.NewTimer(StallTimeout)
+		} else {
+			x.watch.Reset(StallTimeout)
+		}
+		select {
+		case ev := <-x.events:
+			x.watch.Stop()
+			if ev.spawn {
+				outstanding++
+			} else {
+				outstanding--
+			}
+		case <-x.watch.C:
 			buf := make([]byte, 1<<16)
 			n := runtime.Stack(buf, true)
 			panic(fmt.Sprintf("vsched: HARNESS-STALL: a released thread did not reach a scheduling point within %v (blocked in an uninstrumented operation?)\ntrace so far: %v\n%s", StallTimeout, x.Trace, buf[:n]))
@@ -478,9 +497,9 @@ func run(prefix []int, expect []string, maxSteps int, body func()) *Exec {
 			break
 		}
 		if x.Steps >= x.maxSteps {
-			if x.Diverged == "" {
-				x.Diverged = fmt.Sprintf("step horizon %d exceeded", x.maxSteps)
-			}
+			// explicit horizon: an unfair schedule can starve a thread forever (stateless search has
+			// no fairness); the execution is cut, reported as such and not judged as a deadlock
+			x.Horizon = true
 			break
 		}
 		ordered := make([]*thread, 0, len(en))
@@ -561,7 +580,7 @@ func run(prefix []int, expect []string, maxSteps int, body func()) *Exec {
 		}
 	}
 	if len(x.Blocked) > 0 {
-		x.Deadlock = true
+		x.Deadlock = !x.Horizon
 		// unwind the blocked goroutines so that they do not accumulate across executions
 		n := 0
 		for _, t := range x.threads {
@@ -589,9 +608,8 @@ type Options struct {
 	MaxSteps       int
 	MaxExecutions  int
 	Deadline       time.Time
-	// Shard/Shards split the exploration between processes: the children of the root execution
-	// (sub-trees at the first deviation) are dealt round-robin; the root execution itself is
-	// counted by shard 0 only.
+	// Shard/Shards split the exploration between processes: sub-trees rooted at executions with
+	// two deviations from the default schedule are dealt round-robin.
 	Shard, Shards int
 }
 
@@ -601,6 +619,7 @@ type Result struct {
 	DataPoints int64
 	MaxDepth   int
 	Complete   bool
+	Horizons   int // executions cut by the step horizon
 	Cap        string
 	Diverged   string
 	MaxThreads int
@@ -619,6 +638,8 @@ func Explore(opt Options, fresh func() Scenario) Result {
 	}
 	res := Result{Complete: true}
 	stack := []frame{{}}
+	const dealDepth = 2
+	dealIdx := 0
 	for len(stack) > 0 {
 		f := stack[len(stack)-1]
 		stack = stack[:len(stack)-1]
@@ -632,9 +653,19 @@ func Explore(opt Options, fresh func() Scenario) Result {
 		}
 		sc := fresh()
 		x := run(f.prefix, f.expect, opt.MaxSteps, sc.Body)
-		isRoot := len(f.prefix) == 0
-		if isRoot && opt.Shards > 1 && opt.Shard != 0 {
-			sc.Check = nil // the root execution is judged and counted by shard 0
+		// sharding: frames with fewer than dealDepth deviations are run by every shard (judged and
+		// counted by shard 0 only); frames with exactly dealDepth deviations are dealt round-robin in
+		// DFS creation order (identical in all shards because the shared part is deterministic);
+		// deeper frames belong to the shard owning their ancestor
+		dev := 0
+		for _, c := range f.prefix {
+			if c != 0 {
+				dev++
+			}
+		}
+		shared := opt.Shards > 1 && dev < dealDepth
+		if shared && opt.Shard != 0 {
+			sc.Check = nil
 		} else {
 			res.Executions++
 		}
@@ -651,6 +682,9 @@ func Explore(opt Options, fresh func() Scenario) Result {
 				res.Points++
 			}
 		}
+		if x.Horizon {
+			res.Horizons++
+		}
 		if x.Diverged != "" {
 			res.Diverged = x.Diverged
 			res.Complete = false
@@ -661,7 +695,6 @@ func Explore(opt Options, fresh func() Scenario) Result {
 		}
 		// children: alternatives at every point at or after the end of the prefix
 		pre := 0
-		child := 0
 		for i := 0; i < len(x.Points); i++ {
 			p := x.Points[i]
 			if i >= len(f.prefix) {
@@ -674,12 +707,12 @@ func Explore(opt Options, fresh func() Scenario) Result {
 					for j := 0; j <= i; j++ {
 						ne[j] = x.Points[j].Desc
 					}
-					if isRoot && opt.Shards > 1 {
-						if child%opt.Shards != opt.Shard {
-							child++
+					if shared && dev+1 == dealDepth {
+						mine := dealIdx%opt.Shards == opt.Shard
+						dealIdx++
+						if !mine {
 							continue
 						}
-						child++
 					}
 					stack = append(stack, frame{np, ne})
 				}
